@@ -169,9 +169,14 @@ class CallMixin:
                         return self.call_function(fv, [base] + list(args), kwargs, st, fr, node, dyn_cls=base.cls)
             if base.kind == 'seq' and name in ('index', 'count'):
                 raise Unsupported('sequence method %s' % name)
-            if base.kind == 'seq' and name == 'append' and base.cls == 'list':
+            if base.kind == 'seq' and name == 'append' and (base.cls == 'list' or self.contract.attrs.get(getattr(node.func, 'attr', None) and
+                                                                                             getattr(node.func.value, 'attr', '')) == 'seq:ref'
+                                                          or base.cls in ('sequence', None)):
                 n = self.arr_len(st, base)
-                self.arr_write(st, base, [n], args[0])
+                item = args[0]
+                if isinstance(item, (tuple, list)):
+                    item = self.box_for_store(item, st, 'ref')      # a Python tuple / list stored in a heap list becomes a sequence object
+                self.arr_write(st, base, [n], item)
                 st.heap['$len'] = z3.Store(self.field(st, '$len'), base.ref, n + 1)
                 return None
             labels = []
